@@ -1355,7 +1355,7 @@ def unary_boundary(S):
         raised["exc"] = SExc(cls, ("ServerError", "boom", "") if cls is _RpcError else ("failed",))
         raise PyRaise(raised["exc"])
 
-    def drain(S, r):
+    def drain(S, r, *a):
         S.event("drained")
         if mode == "transport_failed" or S.choose(2) == 1:
             S.event("drain_failed")
